@@ -360,3 +360,51 @@ impl<'a> DeferredReader<'a> {
         true
     }
 }
+
+/// Verification hook (only with `--cfg flussab_verif`): a copy of the reader's internal state.
+#[cfg(flussab_verif)]
+#[derive(Clone, Debug, PartialEq, Eq, Hash)]
+pub struct VerifReaderState {
+    /// Offset of the cursor within the buffer.
+    pub pos_in_buf: usize,
+    /// Number of valid bytes in front of the cursor.
+    pub valid_len: usize,
+    /// Length of the buffer vector.
+    pub buf_len: usize,
+    /// Capacity of the buffer vector.
+    pub buf_capacity: usize,
+    /// Stream position of the start of the buffer.
+    pub pos_of_buf: usize,
+    /// Mark relative to the start of the buffer.
+    pub mark_in_buf: usize,
+    /// Whether the source reported its end or an error.
+    pub complete: bool,
+    /// Whether an IO error is parked.
+    pub io_error: bool,
+    /// Configured chunk size.
+    pub chunk_size: usize,
+}
+
+#[cfg(flussab_verif)]
+impl DeferredReader<'_> {
+    /// Verification hook: returns a copy of the internal state without touching the buffer
+    /// contents.
+    pub fn verif_state(&self) -> VerifReaderState {
+        VerifReaderState {
+            pos_in_buf: self.pos_in_buf,
+            valid_len: self.valid_len,
+            buf_len: self.buf.len(),
+            buf_capacity: self.buf.capacity(),
+            pos_of_buf: self.pos_of_buf,
+            mark_in_buf: self.mark_in_buf,
+            complete: self.complete,
+            io_error: self.io_error.is_some(),
+            chunk_size: self.chunk_size,
+        }
+    }
+
+    /// Verification hook: the raw buffer vector (including bytes outside the valid window).
+    pub fn verif_raw_buf(&self) -> &[u8] {
+        &self.buf
+    }
+}
